@@ -451,6 +451,14 @@ class World(object):
         self.adopt(a)
         return a
 
+    def build_from_ini(self, path):
+        """Arbiter.load_from_config on the simulator (zmq.Context.instance
+        is the fake context through the circus.arbiter.zmq seam)"""
+        a = circus.arbiter.Arbiter.load_from_config(
+            path, loop=tornado.ioloop.IOLoop.current())
+        self.adopt(a)
+        return a
+
     def adopt(self, a):
         """instrument an arbiter (count periodic checks that really ran)"""
         self.arbiter = a
